@@ -51,6 +51,7 @@ type Engine struct {
 	TopFn      *ssa.Function
 	TopFC      *FuncContract
 	topFrame   *frameSpec
+	catDepth   int
 	Paths      int
 	MaxPaths   int
 	MaxSteps   int
@@ -1169,6 +1170,14 @@ func (e *Engine) strcat(st *State, a, b *Term) *Term {
 			e.fact(st, Forall([]*Term{bv}, Implies(And(Le(part.off, bv), Lt(bv, Add(part.off, strLen(part.s)))),
 				Eq(Select(App("strbytes", ArrSort(SInt), r), bv), Select(App("strbytes", ArrSort(SInt), part.s), Sub(bv, part.off))))))
 		}
+	}
+	// associativity: a right-nested concatenation equals its left-nested form (the form that Go's
+	// left-to-right evaluation of a + b + c and successive WriteString calls produce)
+	if b.Op == "app" && b.Name == "strcat" && len(b.Args) == 2 && e.catDepth < 12 {
+		e.catDepth++
+		left := e.strcat(st, e.strcat(st, a, b.Args[0]), b.Args[1])
+		e.catDepth--
+		e.fact(st, Eq(r, left))
 	}
 	// Trim(c + x + c, c) == x when the one-character literal c does not occur in x
 	if cs, ok := strOf(b); ok && len(cs) == 1 && a.Op == "app" && a.Name == "strcat" && a.Args[0] == b {
